@@ -28,6 +28,7 @@ from ._util import _determine_license_path, relative_from_root
 from .covered_files import iter_files
 from .exceptions import (
     GlobalLicensingConflictError,
+    SpdxIdentifierConflictError,
     SpdxIdentifierNotFoundError,
 )
 from .extract import _LICENSEREF_PATTERN, reuse_info_of_file
@@ -441,7 +442,16 @@ class Project:
                         other_path=license_files[identifier],
                     )
                 )
-                raise RuntimeError("Multiple licenses resolve to {identifier}")
+                raise SpdxIdentifierConflictError(
+                    _(
+                        "{identifier} is the SPDX License Identifier of both"
+                        " {path} and {other_path}"
+                    ).format(
+                        identifier=identifier,
+                        path=path,
+                        other_path=license_files[identifier],
+                    )
+                )
             # Add the identifiers
             license_files[identifier] = path
             if (
